@@ -658,6 +658,10 @@ def matrix_cases(thorough=False):
                                 i += 1
                                 g = {"k": "g", "name": "Ug", "label": MATRIX_LABELS[i % len(MATRIX_LABELS)], "t": list(ts),
                                      "c": c, "cc": cc, "raw": True}
+                                lib = {(1, 1): ["CNOT", "CZ", "CRX"], (1, 2): ["TOFFOLI"], (2, 1): ["FREDKIN"],
+                                       (2, 0): ["ISWAP", "BERKELEY"], (1, 0): ["H", "RZ"]}.get((len(ts), len(c or [])))
+                                if lib and c != [] and i % 2:      # the library classes of that shape
+                                    g.update(name=lib[(i // 2) % len(lib)], raw=False)
                                 ops = [g]
                                 if around == 1:        # a stored measurement of a wire of the span before, an unstored one after
                                     ops = [{"k": "m", "t": [lo], "s": i % C}, g, {"k": "m", "t": [hi], "s": unstored(i + 1)}]
